@@ -12,6 +12,13 @@ def _c(text, ref):
 
 
 CLAIMS = {
+    "C16": dict(_c("Two engines. E2: the numeric kernels of graphql.type.scalars (serialize/coerce Int and Float, int_value_to_literal, "
+              "serialize_id, serialize_boolean) are translated from the current source to QF_BVFP and the negated claims (32-bit "
+              "range, finiteness, exact equality with the input, no silent precision loss, completeness, input round trip) are "
+              "discharged by z3 for ALL doubles and all integers below 2^70 (unsat = holds). E1: CrossHair symbolic execution of "
+              "the real coerce_output_value for unbounded ints, floats, bools, short strings, other value kinds, generated enums, "
+              "and through execute_sync.", "DESIGN.md section 7, C16"), engine="crosshair-z3 + ast2smt-z3",
+              technique="AST->SMT-LIB (QF_BVFP) translation of the real numeric kernels decided by z3 (unsat/sat), plus symbolic execution of the real code (CrossHair/z3) with path-tree exhaustion; counterexamples replayed concretely"),
     "C11": _c("Bounded symbolic model checking of the real visit()/ParallelVisitor/TypeInfoVisitor against a recursive reference "
               "traversal (child order derived from source positions): scripted visitors whose decision table (which callback, "
               "which of idle/skip/break/remove/replace-by-node/replace-by-value) is symbolic, one decision on 10 trees and two "
